@@ -138,15 +138,23 @@ def c07():
                      "output depends on the secret's content", "_anonymize_value")
             if logs[0] != logs[1]:
                 fail("C07.logdepends", {"form": form, "class": cls}, "log depends on the secret's content", "log")
-    # standalone $1$ / $9$ tokens whatever the keywords
-    for kw in ("foo bar", "xyzzy", "description", ""):
-        for cls in ("md5", "juniper"):
-            s = secret(cls, 3)
-            line = ("%s %s" % (kw, s)).strip()
-            note(("standalone", kw, cls))
-            out = run_io(line + "\n", anon_pwd=True, anon_ip=False, salt="s")
-            if s in out:
-                fail("C07.standalone", {"line": line, "output": out}, "standalone hash-shaped token not replaced",
+    # standalone $1$ / $9$ tokens whatever the keywords: replaced as a whole, no fragment of the hash remains
+    hashes = [secret("md5", 3), md5c("pw", "./aZ09"), md5c("pw2", "")]
+    for i in range(12 if QUICK else 120):
+        plain = "".join(chr(RNG.randrange(33, 127)) for _ in range(RNG.randrange(1, 14)))
+        hashes.append(js.juniper_nonrandom_encrypt(plain, js.NUM_ALPHA[(11 * i) % 65]))
+    # make sure every character of the $9$ alphabet occurs in some body
+    hashes.append("$9$" + "".join(js.NUM_ALPHA))
+    for kw, tail in (("foo bar", ""), ("xyzzy", " trailing words"), ("description", ";"), ("", ""), ('tunnel-credential "', '"')):
+        for h_ in hashes:
+            line = ("%s %s" % (kw, h_)).strip() if not kw.endswith('"') else kw + h_
+            line += tail
+            note(("standalone", kw, h_[:12]))
+            out = run_io(line + "\n", anon_pwd=True, anon_ip=False, salt="zz")
+            body = h_[4:]
+            grams = {body[k:k + 7] for k in range(0, max(1, len(body) - 6))} if len(body) >= 7 else {body}
+            if h_ in out or any(g in out for g in grams):
+                fail("C07.standalone", {"line": line, "output": out}, "standalone hash-shaped token not replaced as a whole",
                      "extra_password_regexes")
 
 
@@ -688,6 +696,29 @@ def c13():
         for k, v in lists.items():
             if o[k] != v:
                 fail("C13.arg_mutated", {"option": k, "before": v, "after": o[k]}, "caller's option list was modified", "frame")
+    # a directory run (several files sharing one anonymizer): identical bytes whatever the hash seed
+    tmp = tempfile.mkdtemp(prefix="vc13_")
+    try:
+        spec = {}
+        for k in range(6):
+            spec["d%d/r%d.cfg" % (k % 2, k)] = ("hostname r%d\npassword secretNo%d\nsnmp-server community comm%d RO\n"
+                                                "ip address 10.%d.2.3 255.255.255.0\n" % (k, k, k, k)).encode()
+        tree(os.path.join(tmp, "in"), spec)
+        blobs = []
+        for seed in (0, 1, 2, 3, 4)[: 3 if QUICK else 5]:
+            outd = os.path.join(tmp, "out%d" % seed)
+            code = ("from netconan.anonymize_files import anonymize_files;"
+                    "anonymize_files(%r, %r, True, True, salt='s13')" % (os.path.join(tmp, "in"), outd))
+            rc, so, se = sub_run(code, seed)
+            note(("dir-hashseed", seed))
+            if rc != 0:
+                fail("C13.exception", {"seed": seed}, se[-300:], "safe")
+                break
+            blobs.append(json.dumps({k_: v.decode() for k_, v in sorted(listing(outd).items())}))
+        if len(set(blobs)) > 1:
+            fail("C13.hashseed", {"tree": sorted(spec)}, "directory output differs between processes / hash seeds", "anonymize_files")
+    finally:
+        shutil.rmtree(tmp, ignore_errors=True)
     # no salt: generated salt is reported and reproduces the output
     h = LogCap()
     logging.getLogger().addHandler(h)
@@ -912,6 +943,24 @@ def c16():
         note("single")
         if open(os.path.join(tmp, "one.out")).read() != open(os.path.join(tmp, "one.out2")).read():
             fail("C16.entrypoints", {}, "anonymize_files and anonymize_file differ on a single file", "anonymize_file")
+        # the same through every entry point, byte for byte, also for CRLF / CR line ends and no final newline
+        for k, raw in enumerate([(good % (8, 8, 8)).replace("\n", "\r\n").encode(), b"password a1\rpassword b2\r",
+                                 (good % (9, 9, 9)).encode()[:-1], "hostname zürich\npassword pw\n".encode()]):
+            src2 = os.path.join(tmp, "crlf%d.cfg" % k)
+            with open(src2, "wb") as f:
+                f.write(raw)
+            note(("entrypoints", k))
+            anonymize_files(src2, os.path.join(tmp, "e%d.dirapi" % k), **kw)
+            FileAnonymizer(**kw).anonymize_file(src2, os.path.join(tmp, "e%d.fileapi" % k))
+            o = io.StringIO()
+            with open(src2, "r") as fh:
+                FileAnonymizer(**kw).anonymize_io(fh, o)
+            with open(os.path.join(tmp, "e%d.stream" % k), "w") as fh:
+                fh.write(o.getvalue())
+            blobs = {nm: open(os.path.join(tmp, "e%d.%s" % (k, nm)), "rb").read() for nm in ("dirapi", "fileapi", "stream")}
+            if len(set(blobs.values())) != 1:
+                fail("C16.entrypoints", {"input": repr(raw[:60]), "outputs": {a: repr(b[:60]) for a, b in blobs.items()}},
+                     "directory API, single-file API and stream API differ", "anonymize_file")
         d = os.path.join(tmp, "d")
         tree(d, {"x.cfg": (good % (1, 1, 1)).encode()})
         before = listing(d)
@@ -1033,7 +1082,7 @@ BOUNDS = {
     "C09": "4 netconan salts x 5 line forms x 7 classes x 2/8 secrets x 8 enclosing-text variants; type 7 decoded, $1$ salt length, $6$ shape, $9$ decrypted",
     "C10": "5 word lists (prefixes/substrings, mixed case, a regex metacharacter) x 3 reserved sets x 2/3 hash seeds (subprocesses) x 11 lines; 8 lines mixing words with secrets and scrubbed forms, secrets on and off; 5 words with non-ASCII letters in their one-to-one letter cases",
     "C12": "15 feature subsets x 5 texts (blank lines, tabs, CRLF, no final newline, empty); per-line independence for 17 lines; 11 tokens with backslash / template characters x 5 secret line forms carried over verbatim",
-    "C13": "4 option sets x 2/4 hash seeds in fresh processes + in-process repeat after an unrelated anonymizer + caller's lists; no-salt path",
+    "C13": "a 6-file directory run under 3/5 hash seeds; 4 option sets x 2/4 hash seeds in fresh processes + in-process repeat after an unrelated anonymizer + caller's lists; no-salt path",
     "C14": "7 salts (empty, non-alphabet first character, non-ASCII) x 5 feature sets x ~75/650 hostile lines (backslashes, metacharacters, malformed hashes, 3000 quotes)",
     "C15": "3 option sets x 35 feature/undo combinations: combined run vs chained single-feature runs on a 30-line corpus incl. IPv6 with dotted tail",
     "C16": "4 trees (nesting, spaces/Unicode, dot files, undecodable bytes early/late) x pre-existing output incl. a directory in the way; single-file API; in-place refusal; 5 spellings of the input/output paths (relative, trailing separator, ./, recurring directory name, absolute)",
